@@ -33,6 +33,9 @@ type ReplySpec struct {
 	Chunked bool `json:"chunked,omitempty"`
 	// HeaderCase: write protocol header names in another case.
 	LowerNames bool `json:"lower_names,omitempty"`
+	// ExtLine: an additional Sec-WebSocket-Extensions header line (replies that
+	// are otherwise valid become unclassified with it: C15 judges announcements).
+	ExtLine string `json:"ext_line,omitempty"`
 }
 
 // ClientHSCase is one client handshake.
@@ -134,6 +137,9 @@ func genClientHSCase(t *rapid.T) ClientHSCase {
 	}
 	if len(c.Subs) > 0 && rapid.Bool().Draw(t, "selproto") {
 		r.Extra = append(r.Extra, "Sec-WebSocket-Protocol: "+c.Subs[0])
+	}
+	if rapid.IntRange(0, 3).Draw(t, "extline") == 0 {
+		r.ExtLine = rapid.SampledFrom([]string{"permessage-deflate", "permessage-deflate; server_no_context_takeover", "permessage-deflate; server_no_context_takeover; client_no_context_takeover", "foo; a=b", "permessage-deflate; ="}).Draw(t, "extline_v")
 	}
 	r.BodyLen = rapid.SampledFrom([]int{0, 0, 1, 100, 1023, 1024, 1025, 2048, 5000}).Draw(t, "bodylen")
 	r.Chunked = rapid.IntRange(0, 3).Draw(t, "chunked") == 0
@@ -326,6 +332,10 @@ func checkC14(c ClientHSCase, o *Obs) error {
 	if wsref.HasToken(ct, "close") {
 		valid = false
 	}
+	if valid && r.ExtLine != "" {
+		valid, unspec = false, true
+	}
+	o.ClassIf(!valid && !unspec && r.ExtLine != "", "invalid_reply_with_extension_header")
 	defects := 0
 	if r.Status != 101 {
 		defects++
@@ -451,6 +461,9 @@ func buildReply(r ReplySpec, key, staleKey string, compress bool) (reply, body [
 	}
 	for _, l := range r.Extra {
 		sb.WriteString(l + "\r\n")
+	}
+	if r.ExtLine != "" {
+		fmt.Fprintf(&sb, "%s: %s\r\n", name("Sec-WebSocket-Extensions"), r.ExtLine)
 	}
 	if r.Status != 101 && r.Status >= 200 && r.Status != 204 {
 		body = bodyBytes(r.BodyLen)
